@@ -974,11 +974,128 @@ func c10Gen(c *Ctx) {
 	c10ShortLengths(c)
 	// several descriptors decoded at the same time, each through a source that delivers its bytes in pieces and parks inside Read
 	c10ConcurrentCases(c, c.N(100, 4000))
+	// certificate data that HAS A STRUCTURE of its own (random bytes never do): see c10StructuredData
+	c10StructuredData(c, fx)
+}
+
+// derShaped returns a well-formed DER element with the given tag whose content is n bytes (nested elements
+// or plain bytes), with a definite length in the short, 0x81, 0x82 or 0x83 form as n demands.
+func derShaped(rng *mrand.Rand, tag byte, n int) []byte {
+	body := make([]byte, n)
+	rng.Read(body)
+	if n >= 5 && rng.Intn(2) == 0 {
+		// INTEGER 1 in front, as a SignedData starts; the rest one OCTET STRING
+		rest := n - 3
+		for _, hl := range []int{2, 3, 4, 5} {
+			if in := rest - hl; in >= 0 && len(derLen(in)) == hl-1 {
+				body = append([]byte{0x02, 0x01, 0x01, 0x04}, derLen(in)...)
+				tail := make([]byte, in)
+				rng.Read(tail)
+				body = append(body, tail...)
+				break
+			}
+		}
+		if len(body) != n { // no octet string of exactly that size: plain bytes
+			body = make([]byte, n)
+			rng.Read(body)
+		}
+	}
+	return append(append([]byte{tag}, derLen(len(body))...), body...)
+}
+
+// c10StructuredData: "recovers ... certificate data exactly" and "encoding a decoded value reproduces the bytes
+// that were consumed" hold for certificate data of ANY content, also for data that looks like something a
+// decoder might want to interpret. The data here is a well-formed DER element (SEQUENCE most of the time: the
+// shape of a PKCS#7 SignedData; also SET / OCTET STRING / context-tagged) of 0..3000 and about 65 000 content bytes, alone or
+// followed INSIDE dwLength by fill: zero bytes up to the next multiple of 2 / 4 / 8 / 16 of the data or of
+// dwLength (what signing tools that align the certificate table produce), 1..16 zero bytes, 0xFF fill, a second
+// DER element, random bytes; under the PKCS7 type GUID, the RSA2048 one and a random one; and the SignedData of
+// every .auth fixture of the repository with dwLength rounded up the same ways. Evaluated by the descriptor
+// oracle (c10EvalAuth: every field and data byte of the declared bytes, the source position, the re-encoding),
+// and as the descriptor decoded in a sequence on one value.
+func c10StructuredData(c *Ctx, fx [][]byte) {
+	sub := &Ctx{Rng: mrand.New(mrand.NewSource(c.Seed*49979687 + 23 + int64(c.Shard)*1000003)), Thorough: c.Thorough}
+	rng := sub.Rng
+	pk7 := wireGUID(signature.EFI_CERT_TYPE_PKCS7_GUID)
+	fill := func(data []byte, k int) ([]byte, string) {
+		out := append([]byte{}, data...)
+		switch k % 8 {
+		case 0:
+			return out, "bare"
+		case 1, 2:
+			// the data, or dwLength (24 + data), rounded up to a multiple of 2 / 4 / 8 / 16 with zero bytes
+			a := []int{2, 4, 8, 8, 16}[rng.Intn(5)]
+			base := len(out)
+			if k%8 == 2 {
+				base += 24
+			}
+			pad := (a - base%a) % a
+			if pad == 0 {
+				pad = a
+			}
+			return append(out, make([]byte, pad)...), "zero-aligned"
+		case 3:
+			return append(out, make([]byte, 1+rng.Intn(16))...), "zero-fill"
+		case 4:
+			return append(out, bytes.Repeat([]byte{0xff}, 1+rng.Intn(8))...), "ff-fill"
+		case 5:
+			return append(out, derShaped(rng, 0x30, rng.Intn(20))...), "second-element"
+		case 6:
+			return append(append(out, make([]byte, 1+rng.Intn(7))...), byte(1+rng.Intn(255))), "zeros-then-nonzero"
+		default:
+			return append(out, randBytes(sub, 1+rng.Intn(12))...), "random-tail"
+		}
+	}
+	emit := func(i int, cls string, guid, data []byte) {
+		payload := randBytes(sub, []int{0, 1, 28, 76, rng.Intn(300)}[rng.Intn(5)])
+		b := mkAuth(randBytes(sub, 16), uint32(24+len(data)), 0x0200, 0x0EF1, guid, data, payload)
+		c10EvalAuth(c, Case{"op": "auth", "class": "der-data/" + cls, "reader": readerKinds[i%len(readerKinds)], "bytes": hx(b)})
+		if i%4 == 0 && len(data) <= 1500 {
+			// ... and as the second descriptor a value decodes, through Unmarshal and through the readers
+			first := hx(mkAuth(randBytes(sub, 16), uint32(24+5), 0x0200, 0x0EF1, pk7, randBytes(sub, 5), nil))
+			desc := hx(mkAuth(randBytes(sub, 16), uint32(24+len(data)), 0x0200, 0x0EF1, guid, data, nil))
+			steps := []string{"unmarshal," + first, []string{"unmarshal,", "read,bytes.Reader,", "readcert,one-byte,"}[(i/4)%3] + desc}
+			c10SeqShrunk(c, Case{"op": "seq", "class": "der-data-second", "steps": steps, "payload": hx(payload)})
+		}
+	}
+	n := 0
+	for i := 0; i < c.N(160, 6000) && c.NFailures() < 8; i++ {
+		size := []int{0, 1, 3, 5, 100, 126, 127, 128, 129, 255, 256, 257, 1500, rng.Intn(3000)}[rng.Intn(14)]
+		if i%40 == 39 {
+			size = []int{65000, 65400, 65500}[(i/40)%3] // near the top of the stated range
+		}
+		tag := []byte{0x30, 0x30, 0x30, 0x30, 0x31, 0x04, 0xa0}[rng.Intn(7)]
+		guid := [][]byte{pk7, pk7, pk7, wireRSA2048GUID, randBytes(sub, 16)}[rng.Intn(5)]
+		data, cls := fill(derShaped(rng, tag, size), i)
+		if len(data)+24 > 65536+24 {
+			continue
+		}
+		emit(n, cls, guid, data)
+		n++
+	}
+	// the SignedData of the repository's descriptors, with dwLength rounded up as an aligning tool would
+	for i, b := range fx {
+		if len(b) < 40 {
+			continue
+		}
+		dw := int(binary.LittleEndian.Uint32(b[16:20]))
+		if dw < 24 || 16+dw > len(b) {
+			continue
+		}
+		for k := 1; k <= 3; k++ {
+			data, cls := fill(b[40:16+dw], k)
+			emit(n, "fixture-"+cls, b[24:40], data)
+			n++
+		}
+		if c.Quick() && i >= 5 {
+			break
+		}
+	}
 }
 
 func init() {
 	register("C10", &PropDef{
-		Rule:   "descriptors with any timestamp, certificate-data length in {0,1,7,16,100,1500,random<=64KiB, and 65511..65536 where dwLength crosses 2^16}, PKCS7 or random type GUID, followed by payloads of 0..300 bytes; variants with a wrong revision, a declared length beyond the data, and a declared length shorter than the data (surplus is payload); the .auth fixtures of the repository; plain WIN_CERTIFICATEs of all three certificate types (up to 64 KiB). INPUTS THAT END EARLY: 40 well-formed WIN_CERTIFICATEs (all three types, bodies of 1..3000 bytes) cut at every position inside the 8-byte header and inside the body (every position for bodies up to 40 bytes, the first 12 / last 4 positions and a sample otherwise) are handed to ReadWinCertificate DIRECTLY through every reader kind (sources ending with a plain io.EOF, and one handing out its last data together with io.EOF); oracle, independent of the model: ReadWinCertificate (any revision, any type) and ReadEFIVariableAuthencation2 may return a nil error only when the header and the bytes its length field declares were present, the value then holds exactly these fields and body bytes and the source is left exactly behind them - an input cut short is answered with an error, never with a (zero) value and a nil error. Each input is handed to the decoder through a bytes.Reader, a bytes.Buffer, a one-byte-at-a-time reader, a reader that returns its last data together with io.EOF, or a half-count reader, over a private copy, and the source (buffer drained, reset and reused; backing array overwritten) is destroyed before the decoded value is inspected and re-encoded. Sequences on ONE EFIVariableAuthentication2 value (2..6 steps): it is built by NewEFIVariableAuthentication2 or decoded, then again decoded into as the receiver of Unmarshal (so a second, third descriptor - with empty or non-empty certificate data, dwLength 24..24+1500 - lands in an object that held another one), replaced by the result of ReadEFIVariableAuthencation2, given a new AuthInfo by ReadWinCertificateUEFIGUID, and edited (Time, type GUID, certificate data with dwLength adjusted); after every step the object must hold exactly the fields these steps define, must encode (Marshal and WriteEFIVariableAuthencation2, also compared with the encoder model and Spec.encAuth through the driver op auth.write) to the 16+dwLength bytes of their declared-length layout, and decoding that encoding in front of a payload must return the fields and leave the payload; failing sequences are shrunk by deleting steps. DESTINATIONS THAT ALREADY HOLD CONTENT: every successfully decoded descriptor / WIN_CERTIFICATE and every value of a sequence step is also encoded (Marshal, WriteEFIVariableAuthencation2, WriteWinCertificateUEFIGUID, WriteWinCertificate) into three buffers that are not empty - the four attribute bytes of an efivarfs file, 1/15/16/17/40/300 bytes, a whole earlier encoding of the same value (a second descriptor appended behind the first), each also with a part of the content already read; oracle: the unread content stays as it is and exactly the bytes the same call writes into an empty destination follow it. DECLARED LENGTHS AROUND THE FIXED PART: descriptors with EVERY dwLength from 8 (the bare WIN_CERTIFICATE header) over 9..23 (a type GUID cut short) and 24 (no certificate data) to 40, with exactly the declared bytes present and with a payload of 1 / 28 bytes behind them, certificate types 0x0EF1 / 0x0002 / 0x0EF0, through every reader kind; oracle, independent of the model, on EVERY successful ReadEFIVariableAuthencation2 of the run: dwLength is at least 24 (otherwise the declared bytes hold no type GUID that could have been recovered), the value holds exactly the timestamp, length, revision, certificate type, type GUID and certificate data that the 16 + dwLength declared bytes spell out, the source is left exactly behind them and the value encodes to them again; and ReadWinCertificateUEFIGUID, the decoder of the part behind the timestamp (any certificate type), is run on every evaluated descriptor: a success requires dwLength >= 24, the declared bytes present, exactly their fields in the value and the source left exactly behind them, and it must succeed wherever the descriptor decoder does. SEVERAL DECODERS AT THE SAME TIME (100 groups of 2 or 3 descriptors, each followed by its payload; two thirds of one layout with other timestamps, GUIDs and data, one in eight with a member cut short or of a wrong revision): each descriptor is decoded on its own goroutine through a source that delivers its bytes in pieces (whole reads, or at most 1 / 3 / 5 / 7 bytes per Read, so that timestamp, header and body arrive in several pieces, as from a pipe) and parks inside every Read - before it touches the destination, or after the bytes are in place but before Read returns - handing control to the next decoder following a switch plan that is part of the case (every parking point, every 2nd / 3rd, mixed, random), so exactly one goroutine runs at a time and every run is deterministic; oracle: every call returns the fields, the bytes left in its source and the re-encoding that the same call through the same reader returns alone. Inputs on which the unrepaired decoder would terminate the process (body shorter than a GUID, dwLength < 8) belong to C13/C14 and are generated there. Non-trivial: longer than the fixed header; distinct = distinct byte strings.",
+		Rule:   "descriptors with any timestamp, certificate-data length in {0,1,7,16,100,1500,random<=64KiB, and 65511..65536 where dwLength crosses 2^16}, PKCS7 or random type GUID, followed by payloads of 0..300 bytes; variants with a wrong revision, a declared length beyond the data, and a declared length shorter than the data (surplus is payload); the .auth fixtures of the repository; plain WIN_CERTIFICATEs of all three certificate types (up to 64 KiB). INPUTS THAT END EARLY: 40 well-formed WIN_CERTIFICATEs (all three types, bodies of 1..3000 bytes) cut at every position inside the 8-byte header and inside the body (every position for bodies up to 40 bytes, the first 12 / last 4 positions and a sample otherwise) are handed to ReadWinCertificate DIRECTLY through every reader kind (sources ending with a plain io.EOF, and one handing out its last data together with io.EOF); oracle, independent of the model: ReadWinCertificate (any revision, any type) and ReadEFIVariableAuthencation2 may return a nil error only when the header and the bytes its length field declares were present, the value then holds exactly these fields and body bytes and the source is left exactly behind them - an input cut short is answered with an error, never with a (zero) value and a nil error. Each input is handed to the decoder through a bytes.Reader, a bytes.Buffer, a one-byte-at-a-time reader, a reader that returns its last data together with io.EOF, or a half-count reader, over a private copy, and the source (buffer drained, reset and reused; backing array overwritten) is destroyed before the decoded value is inspected and re-encoded. Sequences on ONE EFIVariableAuthentication2 value (2..6 steps): it is built by NewEFIVariableAuthentication2 or decoded, then again decoded into as the receiver of Unmarshal (so a second, third descriptor - with empty or non-empty certificate data, dwLength 24..24+1500 - lands in an object that held another one), replaced by the result of ReadEFIVariableAuthencation2, given a new AuthInfo by ReadWinCertificateUEFIGUID, and edited (Time, type GUID, certificate data with dwLength adjusted); after every step the object must hold exactly the fields these steps define, must encode (Marshal and WriteEFIVariableAuthencation2, also compared with the encoder model and Spec.encAuth through the driver op auth.write) to the 16+dwLength bytes of their declared-length layout, and decoding that encoding in front of a payload must return the fields and leave the payload; failing sequences are shrunk by deleting steps. DESTINATIONS THAT ALREADY HOLD CONTENT: every successfully decoded descriptor / WIN_CERTIFICATE and every value of a sequence step is also encoded (Marshal, WriteEFIVariableAuthencation2, WriteWinCertificateUEFIGUID, WriteWinCertificate) into three buffers that are not empty - the four attribute bytes of an efivarfs file, 1/15/16/17/40/300 bytes, a whole earlier encoding of the same value (a second descriptor appended behind the first), each also with a part of the content already read; oracle: the unread content stays as it is and exactly the bytes the same call writes into an empty destination follow it. DECLARED LENGTHS AROUND THE FIXED PART: descriptors with EVERY dwLength from 8 (the bare WIN_CERTIFICATE header) over 9..23 (a type GUID cut short) and 24 (no certificate data) to 40, with exactly the declared bytes present and with a payload of 1 / 28 bytes behind them, certificate types 0x0EF1 / 0x0002 / 0x0EF0, through every reader kind; oracle, independent of the model, on EVERY successful ReadEFIVariableAuthencation2 of the run: dwLength is at least 24 (otherwise the declared bytes hold no type GUID that could have been recovered), the value holds exactly the timestamp, length, revision, certificate type, type GUID and certificate data that the 16 + dwLength declared bytes spell out, the source is left exactly behind them and the value encodes to them again; and ReadWinCertificateUEFIGUID, the decoder of the part behind the timestamp (any certificate type), is run on every evaluated descriptor: a success requires dwLength >= 24, the declared bytes present, exactly their fields in the value and the source left exactly behind them, and it must succeed wherever the descriptor decoder does. SEVERAL DECODERS AT THE SAME TIME (100 groups of 2 or 3 descriptors, each followed by its payload; two thirds of one layout with other timestamps, GUIDs and data, one in eight with a member cut short or of a wrong revision): each descriptor is decoded on its own goroutine through a source that delivers its bytes in pieces (whole reads, or at most 1 / 3 / 5 / 7 bytes per Read, so that timestamp, header and body arrive in several pieces, as from a pipe) and parks inside every Read - before it touches the destination, or after the bytes are in place but before Read returns - handing control to the next decoder following a switch plan that is part of the case (every parking point, every 2nd / 3rd, mixed, random), so exactly one goroutine runs at a time and every run is deterministic; oracle: every call returns the fields, the bytes left in its source and the re-encoding that the same call through the same reader returns alone. CERTIFICATE DATA WITH A STRUCTURE OF ITS OWN (160 descriptors, thorough 6000, plus three per .auth fixture): the data is a well-formed DER element (SEQUENCE - the shape of a PKCS#7 SignedData - most of the time, also SET / OCTET STRING / context-tagged; content 0..3000 bytes and just below 64 KiB, so the short, 0x81 and 0x82 length forms occur) alone or followed INSIDE dwLength by fill - zero bytes up to the next multiple of 2 / 4 / 8 / 16 of the data or of dwLength (descriptors of tools that align the certificate), 1..16 zero bytes, 0xFF bytes, zeros then a non-zero byte, a second DER element, random bytes - under the PKCS7, the RSA2048 and a random type GUID, and the SignedData of the repository fixtures with dwLength rounded up the same ways; judged by the same declared-length oracle (every data byte inside dwLength is certificate data, the re-encoding is the consumed bytes) and, for data up to 1500 bytes, as the second descriptor decoded into one value in a sequence (Unmarshal / ReadEFIVariableAuthencation2 / ReadWinCertificateUEFIGUID). Inputs on which the unrepaired decoder would terminate the process (body shorter than a GUID, dwLength < 8) belong to C13/C14 and are generated there. Non-trivial: longer than the fixed header; distinct = distinct byte strings.",
 		Assume: []string{},
 		Eval:   c10Eval, Gen: c10Gen,
 	})
